@@ -52,6 +52,16 @@ Definition laws_okb (terms : list bytes) (accept : bool) (r : list bytes) : bool
      | None => true
      end.
 
+(** Under same-change = keep, identical adds resolve only if the removes are identical to
+    them as well (arity >= 3): otherwise the result of [merge] must stay a conflict. *)
+Definition keep_okb (terms : list bytes) (accept : bool) (r : list bytes) : bool :=
+  match terms with
+  | s :: _ :: _ :: _ =>
+      if negb accept && forallb (bytes_eqb s) (evens terms) && negb (forallb (bytes_eqb s) (odds terms))
+      then negb (length r =? 1) else true
+  | _ => true
+  end.
+
 Definition shape_okb (c : case) : bool :=
   let n := length (c_terms c) in
   let r := c_merge c in
@@ -75,7 +85,8 @@ Definition shape_okb (c : case) : bool :=
 
 Definition okb (c : case) : bool :=
   negb (c_panicked c) && c_self_identity c
-  && laws_okb (c_terms c) (c_accept c) (c_merge c) && shape_okb c.
+  && laws_okb (c_terms c) (c_accept c) (c_merge c)
+  && keep_okb (c_terms c) (c_accept c) (c_merge c) && shape_okb c.
 
 (** Equal inputs to the diff must receive the identity matching for the laws to hold
     (hypothesis on Layer B); evaluated on the tokens of every term. *)
